@@ -6,6 +6,7 @@ RULE = ("ALL digraphs (self-loops allowed) on 1-3 commands (quick) / 1-4 command
         "direct parameters, lists or a mix, random file order, plus random digraphs on 4-8 commands; outcome class, "
         "executed set and the command whose line the error carries compared with the Coq model. "
         "non-trivial = distinct program that contains a cycle")
+RULE += (' Cyclic graphs include repeated mentions of one result in a list and a loop behind a 260-command chain listed from either end (under a lowered recursion limit).')
 TRUSTED = c01.TRUSTED
 ASSUMPTIONS = ["interpreter recursion limit lowered to 400 in the harness process only (cheap observation of runaway recursion)"]
 
